@@ -242,6 +242,49 @@ func (v *VLoop) Barrier() {
 	}
 }
 
+// BarrierPumping is Barrier for a seeding torrent: while the markers travel, upload notifications
+// (BlockUploaded) that the peer writers hand to the loop are handled, otherwise a writer would
+// block on them and never reach the marker.
+func (v *VLoop) BarrierPumping() (handled int) {
+	type w struct {
+		p  *VPeer
+		n0 int
+	}
+	var ws []w
+	for _, p := range v.Peers {
+		if p.Gone || p.Pe.Closed {
+			continue
+		}
+		p.mu.Lock()
+		n0, cl := p.markers, p.closed
+		p.mu.Unlock()
+		if cl {
+			continue
+		}
+		p.Pe.SendMessage(peerprotocol.PortMessage{Port: 0xBEEF})
+		ws = append(ws, w{p, n0})
+	}
+	deadline := time.Now().Add(2 * time.Second)
+	for time.Now().Before(deadline) {
+		done := true
+		for _, x := range ws {
+			x.p.mu.Lock()
+			ok := x.p.markers > x.n0 || x.p.closed
+			x.p.mu.Unlock()
+			if !ok {
+				done = false
+			}
+		}
+		if done {
+			return
+		}
+		if e := v.PumpEx(200*time.Microsecond, ClsMsg); e.Code != EvNone {
+			handled++
+		}
+	}
+	return
+}
+
 // Take returns and clears the frames received so far; closed tells whether the client closed the connection.
 func (p *VPeer) Take() (fs []VFrame, closed bool) {
 	p.mu.Lock()
